@@ -26,7 +26,13 @@ using Track::byte;
 
 namespace gate {
 enum Kind : unsigned char { SCAN = 1, COPY, CRC_ID, CRC_DATA };
-constexpr unsigned MAXE = 12;
+#ifndef GATE_MAXE
+#define GATE_MAXE 12
+#endif
+#ifndef SIZE_CODE
+#define SIZE_CODE 1
+#endif
+constexpr unsigned MAXE = GATE_MAXE;
 unsigned probe;                // byte offset at which the contents of copied fields are compared (symbolic, fixed per run)
 unsigned char kind[MAXE];
 bool ok[MAXE];                 // SCAN: found; COPY: success
@@ -67,7 +73,6 @@ bool stub_copy_bytes(const Track::BitStream& bits, size_t& thisbit, size_t count
   kind[k] = COPY; a[k] = count; pos[k] = thisbit;
   const bool success = vf_nondet_u8() & 1;
   ok[k] = success;
-  vf_assume(count <= 260);                              // 128/256-byte sectors (+mark, +CRC); larger size codes are outside the bound
   const unsigned long seed = vf_nondet_u64();
   b[k] = seed;
   const size_t adv = vf_nondet_u32();
@@ -79,6 +84,7 @@ bool stub_copy_bytes(const Track::BitStream& bits, size_t& thisbit, size_t count
   for (size_t i = 0; i < 6; ++i) if (i < got) (*out)[old + i] = gen(seed, i);                    // header bytes
   if (probe < got) (*out)[old + probe] = gen(seed, probe);                                         // the compared byte
   if (got >= 2) { (*out)[old + got - 2] = gen(seed, got - 2); (*out)[old + got - 1] = gen(seed, got - 1); }   // CRC bytes
+  if (count == 6 && got >= 4) (*out)[old + 3] = SIZE_CODE;      // the size code is fixed per query: allocation sizes stay concrete
   return success;
 }
 bool stub_copy_fm_bytes(const Track::BitStream& bits, size_t& thisbit, size_t count, std::vector<byte> *out, bool)
@@ -143,7 +149,7 @@ extern "C" void h_fm_gate(void)
       if (gate::kind[e] != gate::CRC_ID) { protocol_ok = false; break; }
       if (gate::a[e] != 0) { ++e; continue; }             // ID CRC bad: the ID is ignored
       ++e;
-      const unsigned size_code = gate::gen(gate::b[id_ev], 3);
+      const unsigned size_code = SIZE_CODE;
       if (size_code > 3) continue;                          // not a valid ID
       const unsigned sec_size = 128u << size_code;
       // --- the record that follows: sync + data mark (FB) or deleted-data mark (F8)
@@ -176,7 +182,7 @@ extern "C" void h_fm_gate(void)
     if (i < nwant && i < got.size())
       {
         const unsigned long ids = gate::b[want[i].id_ev], ds = gate::b[want[i].data_ev];
-        const unsigned sz = 128u << gate::gen(ids, 3);
+        const unsigned sz = 128u << SIZE_CODE;
         vf_assert(got[i].address.cylinder == gate::gen(ids, 0) && got[i].address.head == gate::gen(ids, 1) && got[i].address.record == gate::gen(ids, 2),
                   "the address is the one in the CRC-checked ID field that precedes the data field");
         vf_assert(got[i].data.size() == sz, "the data length is the one announced by the ID field");
